@@ -24,6 +24,7 @@ from pyoda_time import Duration, Instant, Offset
 from vf.core.evidence import Acc, exc_origin
 from vf.core.par import pmap
 from vf.models import intarith as M
+from vf.models.valbind import kw_forms, kw_ok
 
 LEVEL = "model_checking"
 RANGE_EXC = (ValueError, OverflowError)
@@ -33,6 +34,10 @@ K_DAYS = (1, 2, 2 ** 24 - 1, 2 ** 24, 106752, 170_000_000, 2 ** 28, 270_000_000,
           2 ** 30 - 2, 2 ** 30 - 1)
 DELTAS = (-100, -1, 0, 1, 100)
 SCALARS = (1, -1, 2, -2, 3, -3, 7, -7, 10 ** 9, -(10 ** 9), 2 ** 63 + 1, -(2 ** 63 + 1), 0)
+# numeric-tower boundaries (C int / double / beyond-double ints) with their +/-1 neighbours: full set for the alphabet values,
+# a few representatives for the closure levels
+TOWER_SCALARS = tuple(M.tower(True))
+CLOSURE_TOWER = (2 ** 31, -(2 ** 32), 2 ** 53 + 1, 2 ** 1024, -(10 ** 400))
 _TD_MIN_US = -999_999_999 * 86400 * 10 ** 6
 _TD_MAX_US = (999_999_999 + 1) * 86400 * 10 ** 6 - 1
 FLOATS = (0.5, -0.5, 1.5, -1.5, 0.0009765625, -2.25, 3.0, -0.0)
@@ -68,6 +73,7 @@ def unit_counts(unit):
     hi = (M.DUR_MAX_DAYS + 1) * upd - 1
     v = {0, 1, -1, lo - 1, lo, lo + 1, hi - 1, hi, hi + 1, 10 ** 22, -(10 ** 22), 2 ** 63, -(2 ** 63) - 1, 2 ** 64 + 1,
          -(2 ** 64) - 1, 10 ** 30}
+    v.update(M.tower(False))
     for k in K_DAYS + (2 ** 30, 2 ** 30 + 1):
         for d in (-1, 0, 1):
             v.add(k * upd + d)
@@ -206,6 +212,44 @@ def worker(fn):
     return w
 
 
+# documented parameter names of the aliases / factories that are also exercised in KEYWORD form (a name that the tree
+# under test does not accept by keyword is dropped at start-up and listed under 'degraded', never a failure)
+KW_NAMES = {
+    "Duration.add": ("left", "right"), "Duration.subtract": ("left", "right"), "Duration.multiply": ("left", "right"),
+    "Duration.divide": ("left", "right"), "Duration.negate": ("duration",), "Duration.max": ("x", "y"), "Duration.min": ("x", "y"),
+    "Duration.plus": ("other",), "Duration.minus": ("other",), "Duration.compare_to": ("other",), "Duration.equals": ("other",),
+    "Instant.add": ("left", "right"), "Instant.max": ("x", "y"), "Instant.min": ("x", "y"), "Instant.plus": ("other",),
+    "Instant.plus_ticks": ("ticks",), "Instant.plus_nanoseconds": ("nanoseconds",), "Instant.from_unix_time_seconds": ("seconds",),
+    "Instant.from_unix_time_milliseconds": ("milliseconds",), "Instant.from_unix_time_ticks": ("ticks",),
+    "Instant.from_utc": ("year", "month_of_year", "day_of_month", "hour_of_day", "minute_of_hour", "second_of_minute"),
+    "Offset.add": ("left", "right"), "Offset.subtract": ("minuend", "subtrahend"), "Offset.negate": ("offset",), "Offset.max": ("x", "y"),
+    "Offset.min": ("x", "y"), "Offset.plus": ("other",), "Offset.minus": ("other",), "Offset.from_seconds": ("seconds",),
+    "Offset.from_milliseconds": ("milliseconds",), "Offset.from_ticks": ("ticks",), "Offset.from_nanoseconds": ("nanoseconds",),
+    "Offset.from_hours": ("hours",), "Offset.from_hours_and_minutes": ("hours", "minutes"),
+}
+for _u in M.UNIT_NS:
+    KW_NAMES["Duration.from_" + _u] = (_u,)
+_CLASSES = {"Duration": Duration, "Instant": Instant, "Offset": Offset}
+
+
+@functools.cache
+def _kw_names(qual):
+    cname, meth = qual.split(".")
+    fn = getattr(_CLASSES[cname], meth, None)
+    names = KW_NAMES[qual]
+    return names if fn is not None and kw_ok(fn, names) else None
+
+
+def kwf(acc, qual, *args, obj=None):
+    """keyword spellings of a call (thunks); [] and a 'degraded' note when the documented names are not accepted"""
+    names = _kw_names(qual)
+    if names is None:
+        acc.degrade("keyword form of %s%r not accepted by this tree: skipped" % (qual, KW_NAMES[qual]))
+        return []
+    cname, meth = qual.split(".")
+    return kw_forms(getattr(obj if obj is not None else _CLASSES[cname], meth), names, args)
+
+
 def guarded(acc, prefix, case, fn, *a, **kw):
     """run one item's checks; an exception escaping from library code on this (valid) item is a violation, not a crash"""
     try:
@@ -235,7 +279,7 @@ def _py_binop(op, a, b):
 
 
 # ---------------------------------------------------------------------------------------------------- Duration
-def check_value(acc, ns, scalars=SCALARS, new=None):
+def check_value(acc, ns, scalars=SCALARS, new=None, kwforms=False):
     """Everything observable about one Duration value (accessors, unary minus, scalar ops)."""
     case = {"kind": "dur-value", "ns": ns}
     acc.count(states=1)
@@ -271,6 +315,9 @@ def check_value(acc, ns, scalars=SCALARS, new=None):
     if r is not None and new is not None:
         new.add(neg)
     r = expect(acc, lambda: Duration.negate(d), M.in_dur(neg), neg, "C03/duration/negate", cls, c2)
+    if kwforms:
+        for f in kwf(acc, "Duration.negate", d):
+            expect(acc, f, M.in_dur(neg), neg, "C03/duration/negate", cls + ",keyword", c2)
     # scalar multiplication / truncating division by ints
     for k in scalars:
         prod = ns * k
@@ -281,6 +328,9 @@ def check_value(acc, ns, scalars=SCALARS, new=None):
             new.add(prod)
         expect(acc, lambda: k * d, M.in_dur(prod), prod, "C03/duration/rmul", kc, c3)
         expect(acc, lambda: Duration.multiply(d, k), M.in_dur(prod), prod, "C03/duration/mul", kc + ",alias", c3)
+        if kwforms:
+            for f in kwf(acc, "Duration.multiply", d, k) + kwf(acc, "Duration.multiply", k, d):
+                expect(acc, f, M.in_dur(prod), prod, "C03/duration/mul", kc + ",keyword", c3)
         if k == 0:
             acc.count(transitions=1, evaluations=1)
             try:
@@ -295,6 +345,9 @@ def check_value(acc, ns, scalars=SCALARS, new=None):
         c4 = {"kind": "dur-scalar", "op": "div", "a": ns, "k": k}
         r = expect(acc, lambda: d / k, M.in_dur(q), q, "C03/duration/div", kc, c4)
         expect(acc, lambda: Duration.divide(d, k), M.in_dur(q), q, "C03/duration/div", kc + ",alias", c4)
+        if kwforms:
+            for f in kwf(acc, "Duration.divide", d, k):
+                expect(acc, f, M.in_dur(q), q, "C03/duration/div", kc + ",keyword", c4)
         if r is not None and new is not None:
             new.add(q)
         if M.trem(ns, k) != 0:
@@ -337,6 +390,8 @@ def check_factory(acc, unit, n):
         acc.count(nontrivial=1)
     if d is None:
         return None
+    for f in kwf(acc, "Duration.from_" + unit, n):
+        expect(acc, f, ok, exact, "C03/duration/from_" + unit, cls + ",keyword", case)
     # the same model value must be the same Duration whichever way it was built
     ref = mk(exact)
     acc.count(evaluations=1)
@@ -366,7 +421,20 @@ def check_pair(acc, a, b, da, db, new=None, full=True):
     for name, exact, fn in (("add", a + b, lambda: Duration.add(da, db)), ("add", a + b, lambda: da.plus(db)),
                             ("sub", a - b, lambda: Duration.subtract(da, db)), ("sub", a - b, lambda: da.minus(db))):
         expect(acc, fn, M.in_dur(exact), exact, "C03/duration/" + name, cls + ",alias", {"kind": "dur-binop", "op": name, "a": a, "b": b})
+    for name, exact, forms in (("add", a + b, kwf(acc, "Duration.add", da, db) + kwf(acc, "Duration.plus", db, obj=da)),
+                               ("sub", a - b, kwf(acc, "Duration.subtract", da, db) + kwf(acc, "Duration.minus", db, obj=da))):
+        for f in forms:
+            expect(acc, f, M.in_dur(exact), exact, "C03/duration/" + name, cls + ",keyword", {"kind": "dur-binop", "op": name, "a": a, "b": b})
     case = {"kind": "dur-compare", "a": a, "b": b}
+    for qual, e in (("Duration.max", max(a, b)), ("Duration.min", min(a, b))):
+        for f in kwf(acc, qual, da, db):
+            acc.count(evaluations=1)
+            if f().to_nanoseconds() != e:
+                acc.violation("C03/duration/minmax/%s,keyword" % cls, "%s(x=%d, y=%d) by keyword gives %d" % (qual, a, b, f().to_nanoseconds()), case)
+    for f in kwf(acc, "Duration.compare_to", db, obj=da):
+        acc.count(evaluations=1)
+        if M.sign(f()) != M.sign(a - b):
+            acc.violation("C03/duration/compare/compare_to/%s,keyword" % cls, "compare_to(other=) of %d and %d gives %r" % (a, b, f()), case)
     for name, f in CMP:
         acc.count(evaluations=1)
         g = f(da, db)
@@ -393,7 +461,7 @@ def w_dur_values(vals):
     acc = Acc()
     new = set()
     for i, ns in enumerate(vals):
-        guarded(acc, "C03/duration/value", {"kind": "dur-value", "ns": ns}, check_value, ns, new=new)
+        guarded(acc, "C03/duration/value", {"kind": "dur-value", "ns": ns}, check_value, ns, scalars=SCALARS + TOWER_SCALARS, new=new, kwforms=True)
         if i < 2:
             acc.sample({"duration_ns": ns, "components": M.dur_components(ns)})
     return acc, sorted(new)
@@ -523,14 +591,23 @@ def check_instant_value(acc, ns, durs, offs, new=None):
                 new.add(exact)
             if not ok or exact // NSD != ns // NSD:
                 acc.count(nontrivial=1)
-    for n in (0, 1, -1, 10 ** 7 - 1, -(10 ** 7), M.INST_MAX_NS // 100, -(2 ** 63) - 1, 10 ** 22, (M.INST_MAX_NS - ns) // 100, (M.INST_MIN_NS - ns) // 100 - 1):
+        for f in kwf(acc, "Instant.add", i, dd) + kwf(acc, "Instant.plus", dd, obj=i):
+            expect_inst(acc, f, M.in_inst(ns + d), ns + d, "C03/instant/add", "%s;d=%s,%s,keyword" % (cls, sgn(d), nod_rel(ns, d)),
+                        {"kind": "inst-dur", "op": "add", "ns": ns, "d": d})
+    for n in (0, 1, -1, 10 ** 7 - 1, -(10 ** 7), M.INST_MAX_NS // 100, -(2 ** 63) - 1, 10 ** 22, 2 ** 53 + 1, 2 ** 1024, -(10 ** 400), (M.INST_MAX_NS - ns) // 100, (M.INST_MIN_NS - ns) // 100 - 1):
         exact = ns + n * 100
         expect_inst(acc, lambda: i.plus_ticks(n), M.in_inst(exact) and M.in_dur(n * 100), exact, "C03/instant/plus_ticks",
                     "%s;n=%s,mag=%s" % (cls, sgn(n), mag(n)), {"kind": "inst-plus", "unit": "ticks", "ns": ns, "n": n})
-    for n in (0, 1, -1, NSD - 1, -NSD, 2 ** 63, -(2 ** 64) - 1, M.INST_MAX_NS - ns, M.INST_MAX_NS - ns + 1, M.INST_MIN_NS - ns, M.INST_MIN_NS - ns - 1, 10 ** 40):
+        for f in kwf(acc, "Instant.plus_ticks", n, obj=i):
+            expect_inst(acc, f, M.in_inst(exact) and M.in_dur(n * 100), exact, "C03/instant/plus_ticks",
+                        "%s;n=%s,mag=%s,keyword" % (cls, sgn(n), mag(n)), {"kind": "inst-plus", "unit": "ticks", "ns": ns, "n": n})
+    for n in (0, 1, -1, NSD - 1, -NSD, 2 ** 63, -(2 ** 64) - 1, M.INST_MAX_NS - ns, M.INST_MAX_NS - ns + 1, M.INST_MIN_NS - ns, M.INST_MIN_NS - ns - 1, 10 ** 40, 2 ** 53 + 1, -(2 ** 1024), 10 ** 400):
         exact = ns + n
         expect_inst(acc, lambda: i.plus_nanoseconds(n), M.in_inst(exact) and M.in_dur(n), exact, "C03/instant/plus_nanoseconds",
                     "%s;n=%s,mag=%s" % (cls, sgn(n), mag(n)), {"kind": "inst-plus", "unit": "nanoseconds", "ns": ns, "n": n})
+        for f in kwf(acc, "Instant.plus_nanoseconds", n, obj=i):
+            expect_inst(acc, f, M.in_inst(exact) and M.in_dur(n), exact, "C03/instant/plus_nanoseconds",
+                        "%s;n=%s,mag=%s,keyword" % (cls, sgn(n), mag(n)), {"kind": "inst-plus", "unit": "nanoseconds", "ns": ns, "n": n})
     # offsets applied safely at the ends of time (private helpers; degrade when absent)
     try:
         from pyoda_time._local_instant import _LocalInstant
@@ -592,6 +669,11 @@ def w_inst_pairs(job):
             acc.count(evaluations=3)
             if M.sign(ia.compare_to(ib)) != M.sign(a - b) or inst_ns(acc, Instant.max(ia, ib)) != max(a, b) or inst_ns(acc, Instant.min(ia, ib)) != min(a, b):
                 acc.violation("C03/instant/minmax-compare_to/%s" % cls, "compare_to/min/max of %d and %d disagree with the integers" % (a, b), case)
+            for qual, e in (("Instant.max", max(a, b)), ("Instant.min", min(a, b))):
+                for f in kwf(acc, qual, ia, ib):
+                    acc.count(evaluations=1)
+                    if inst_ns(acc, f()) != e:
+                        acc.violation("C03/instant/minmax-compare_to/%s,keyword" % cls, "%s(x=, y=) of %d and %d by keyword disagrees with the integers" % (qual, a, b), case)
             if (a // NSD != b // NSD) and (a % NSD < b % NSD):
                 acc.count(nontrivial=1)
     return acc, []
@@ -603,10 +685,13 @@ def w_inst_misc(_):
     # unix factories at and beyond the documented range ends
     for name, u in UNIX:
         lo, hi = M.INST_MIN_NS // u, M.INST_MAX_NS // u
-        for n in (lo - 1, lo, lo + 1, -1, 0, 1, hi - 1, hi, hi + 1, 10 ** 22, -(10 ** 22), 2 ** 63, -(2 ** 63) - 1):
+        for n in (lo - 1, lo, lo + 1, -1, 0, 1, hi - 1, hi, hi + 1, 10 ** 22, -(10 ** 22), 2 ** 63, -(2 ** 63) - 1, 2 ** 1024, -(10 ** 400)):
             exact = n * u
             expect_inst(acc, lambda: getattr(Instant, "from_unix_time_" + name)(n), lo <= n <= hi, exact, "C03/instant/from_unix_time_" + name,
                         "%s,mag=%s" % (sgn(n), mag(n)), {"kind": "inst-from-unix", "unit": name, "n": n})
+            for f in kwf(acc, "Instant.from_unix_time_" + name, n):
+                expect_inst(acc, f, lo <= n <= hi, exact, "C03/instant/from_unix_time_" + name, "%s,mag=%s,keyword" % (sgn(n), mag(n)),
+                            {"kind": "inst-from-unix", "unit": name, "n": n})
             acc.count(states=1, nontrivial=0 if lo < n < hi else 1)
     # from_utc against the proleptic Gregorian day count
     for (y, mo, d) in ((-9998, 1, 1), (-9998, 12, 31), (-1, 12, 31), (0, 1, 1), (0, 2, 29), (0, 12, 31), (1, 1, 1), (4, 2, 29), (100, 3, 1),
@@ -615,6 +700,8 @@ def w_inst_misc(_):
             exact = M.days_from_civil(y, mo, d) * NSD + (h * 3600 + mi * 60 + s) * M.NS_S
             expect_inst(acc, lambda: Instant.from_utc(y, mo, d, h, mi, s), True, exact, "C03/instant/from_utc", "y=%d" % y,
                         {"kind": "inst-from-utc", "args": [y, mo, d, h, mi, s]})
+            for f in kwf(acc, "Instant.from_utc", y, mo, d, h, mi, s):
+                expect_inst(acc, f, True, exact, "C03/instant/from_utc", "y=%d,keyword" % y, {"kind": "inst-from-utc", "args": [y, mo, d, h, mi, s]})
             acc.count(states=1)
     acc.count(evaluations=2)
     if inst_ns(acc, Instant.min_value) != M.INST_MIN_NS or inst_ns(acc, Instant.max_value) != M.INST_MAX_NS:
@@ -695,6 +782,13 @@ def w_off_misc(job):
                               ("minus", a - b, lambda: oa.minus(ob)), ("add-static", a + b, lambda: Offset.add(oa, ob)),
                               ("subtract-static", a - b, lambda: Offset.subtract(oa, ob))):
                 expect_off(acc, fn, M.in_off(e), e, "C03/offset/" + op, cls, dict(case, op=op))
+            for op, e, forms in (("add-static", a + b, kwf(acc, "Offset.add", oa, ob)), ("subtract-static", a - b, kwf(acc, "Offset.subtract", oa, ob)),
+                                 ("plus", a + b, kwf(acc, "Offset.plus", ob, obj=oa)), ("minus", a - b, kwf(acc, "Offset.minus", ob, obj=oa))):
+                for f in forms:
+                    expect_off(acc, f, M.in_off(e), e, "C03/offset/" + op, cls + ",keyword", dict(case, op=op, form="keyword"))
+            for qual, e in (("Offset.max", max(a, b)), ("Offset.min", min(a, b))):
+                for f in kwf(acc, qual, oa, ob):
+                    expect_off(acc, f, True, e, "C03/offset/minmax", cls + ",keyword", dict(case, op=qual, form="keyword"))
             for name, f in CMP:
                 acc.count(evaluations=1)
                 if f(oa, ob) is not f(a, b):
@@ -707,16 +801,24 @@ def w_off_misc(job):
     for name, u in OFF_UNITS:
         lo, hi = M.OFF_MIN_S * u, M.OFF_MAX_S * u
         for n in (lo - 1, lo, lo + 1, lo + u - 1, lo + u, -u - 1, -u, -u + 1, -1, 0, 1, u - 1, u, u + 1, hi - u, hi - u + 1, hi - 1, hi, hi + 1,
-                  2 ** 63, -(2 ** 63) - 1, 10 ** 30):
+                  2 ** 63, -(2 ** 63) - 1, 10 ** 30, 2 ** 31, -(2 ** 32), 2 ** 53, 2 ** 1024, -(10 ** 400)):
             expect_off(acc, lambda: getattr(Offset, "from_" + name)(n), lo <= n <= hi, M.tdiv(n, u), "C03/offset/from_" + name,
                        "%s,mag=%s" % (sgn(n), mag(n)), {"kind": "off-factory", "unit": name, "n": n})
+            for f in kwf(acc, "Offset.from_" + name, n):
+                expect_off(acc, f, lo <= n <= hi, M.tdiv(n, u), "C03/offset/from_" + name, "%s,mag=%s,keyword" % (sgn(n), mag(n)),
+                           {"kind": "off-factory", "unit": name, "n": n})
             acc.count(states=1, nontrivial=0 if lo < n < hi else 1)
+    for a in alpha:
+        for f in kwf(acc, "Offset.negate", Offset.from_seconds(a)):
+            expect_off(acc, f, True, -a, "C03/offset/neg", sgn(a) + ",keyword", {"kind": "off-value", "s": a})
     for h in range(-20, 21):
         expect_off(acc, lambda: Offset.from_hours(h), -18 <= h <= 18, h * 3600, "C03/offset/from_hours", sgn(h), {"kind": "off-hours", "h": h})
         for m in (-61, -60, -59, -1, 0, 1, 30, 59, 60, 61):
             e = h * 3600 + m * 60
             expect_off(acc, lambda: Offset.from_hours_and_minutes(h, m), M.in_off(e), e, "C03/offset/from_hours_and_minutes", "%s;%s" % (sgn(h), sgn(m)),
                        {"kind": "off-hm", "h": h, "m": m})
+            for f in kwf(acc, "Offset.from_hours_and_minutes", h, m):
+                expect_off(acc, f, M.in_off(e), e, "C03/offset/from_hours_and_minutes", "%s;%s,keyword" % (sgn(h), sgn(m)), {"kind": "off-hm", "h": h, "m": m})
     acc.count(evaluations=1)
     if (Offset.min_value.seconds, Offset.max_value.seconds, Offset.zero.seconds) != (M.OFF_MIN_S, M.OFF_MAX_S, 0):
         acc.violation("C03/offset/range-ends", "Offset.min_value/max_value/zero differ from -18h/+18h/0", None)
@@ -782,7 +884,7 @@ def run(ctx):
                 ctx.cap("duration-closure level %d: %d new values, %d explored (even spread over the value order)" % (level, len(seen) - len(V), cap))
                 complete = False
             cols = core if (level == 2 or not thorough) else core
-            scal = SCALARS if level == 2 else (-1, 2, -3, 0)
+            scal = (SCALARS + CLOSURE_TOWER) if level == 2 else (-1, 2, -3, 0, 2 ** 1024)
             jobs = [(chunk, cols, scal) for chunk in _split(vals, 64 if not thorough else 256)]
             ctx.note("closure_level_%d_values" % level, len(vals))
             collect("duration-closure", pmap(w_closure, _rot(jobs, ctx.seed)))
@@ -848,9 +950,9 @@ def replay(rec):
     acc = Acc()
     k = case.get("kind")
     if k == "dur-value":
-        guarded(acc, "C03/duration/value", case, check_value, case["ns"])
+        guarded(acc, "C03/duration/value", case, check_value, case["ns"], scalars=SCALARS + TOWER_SCALARS, kwforms=True)
     elif k in ("dur-unary", "dur-scalar"):
-        guarded(acc, "C03/duration/value", case, check_value, case["a"])
+        guarded(acc, "C03/duration/value", case, check_value, case["a"], scalars=(case["k"],) if "k" in case else SCALARS, kwforms=True)
     elif k == "dur-factory":
         n = case["n"]
         if isinstance(n, dict):
